@@ -335,7 +335,17 @@ void execute_assignment(StatementExecutor *executor, Interpreter &interpreter,
     }
 
     // 右辺が三項演算子の場合の特別処理
-    if (node->right && node->right->node_type == ASTNodeType::AST_TERNARY_OP) {
+    // execute_ternary_assignment() can only store into a plain variable
+    // (node->name). For any other target (a[i] = c ? x : y, s.m = c ? x : y,
+    // p->m = ...) it never evaluated the index/target expression and stored
+    // nothing, so those go through the general code below, which evaluates
+    // the conditional expression like any other right-hand side (condition
+    // first, then only the selected branch).
+    bool ternary_target_is_plain_variable =
+        !node->left || node->left->node_type == ASTNodeType::AST_VARIABLE ||
+        node->left->node_type == ASTNodeType::AST_IDENTIFIER;
+    if (node->right && node->right->node_type == ASTNodeType::AST_TERNARY_OP &&
+        ternary_target_is_plain_variable) {
         executor->execute_ternary_assignment(node);
         return;
     }
